@@ -372,7 +372,7 @@ class Ribosome:
             return match.group(0)
 
         # Only process if not already handled by filter
-        for match in re.finditer(r'\{\{(\w+)\|([^}]+)\}\}', result):
+        for match in re.finditer(r'\{\{(\w+)\|([^}]*)\}\}', result):
             var_name = match.group(1)
             value_or_default = match.group(2)
             if value_or_default not in self.filters:
